@@ -14,10 +14,13 @@ import (
 	banktypes "github.com/cosmos/cosmos-sdk/x/bank/types"
 	paramproposal "github.com/cosmos/cosmos-sdk/x/params/types/proposal"
 
+	"github.com/cosmos/cosmos-sdk/simapp/helpers"
+
 	ibctransfer "github.com/cosmos/ibc-go/v3/modules/apps/transfer"
 	transfertypes "github.com/cosmos/ibc-go/v3/modules/apps/transfer/types"
 	clienttypes "github.com/cosmos/ibc-go/v3/modules/core/02-client/types"
 	channeltypes "github.com/cosmos/ibc-go/v3/modules/core/04-channel/types"
+	host "github.com/cosmos/ibc-go/v3/modules/core/24-host"
 	ibctesting "github.com/cosmos/ibc-go/v3/testing"
 
 	"github.com/ethereum/go-ethereum/common"
@@ -43,6 +46,13 @@ type ICSWorld struct {
 	seqC  uint64
 	X     common.Address // an externally-owned ERC-20 on B (deployed and mintable by XOwner)
 	Y     common.Address // another one whose transfer takes a cut (ERC20DirectBalanceManipulation); its supply is with XOwner
+	// the outbound direction: at most one packet outstanding per voucher (the model's bound, enforced here)
+	Pend map[string]*icsPending
+}
+
+type icsPending struct {
+	packet channeltypes.Packet
+	amount int64
 }
 
 // the deployer and minter of X is the fee collector's address (an existing account whose nonce nobody else uses);
@@ -69,7 +79,7 @@ func newICSWorld(t *testing.T) *ICSWorld {
 	pathC.EndpointA.ChannelConfig.Version = transfertypes.Version
 	pathC.EndpointB.ChannelConfig.Version = transfertypes.Version
 	coord.Setup(pathC)
-	w := &ICSWorld{Coord: coord, A: a, B: b, Path: path, C: cc, PathC: pathC}
+	w := &ICSWorld{Coord: coord, A: a, B: b, Path: path, C: cc, PathC: pathC, Pend: map[string]*icsPending{}}
 	w.fixHeaders()
 	// the external token X
 	ctor, err := erc20ABI.Pack("", "ext", "EXT", uint8(18))
@@ -154,7 +164,11 @@ func (w *ICSWorld) project(denoms map[string]string) M {
 		"mx": w.viewBal(xc, common.BytesToAddress(mod))}
 	for abs, d := range denoms {
 		e := M{"vbal": a.BankKeeper.GetBalance(ctx, w.userB(), d).Amount.Int64(), "esc": a.BankKeeper.GetBalance(ctx, mod, d).Amount.Int64(),
-			"sup": a.BankKeeper.GetSupply(ctx, d).Amount.Int64(), "registered": false, "pairon": false, "tok": 0, "ext": false}
+			"sup": a.BankKeeper.GetSupply(ctx, d).Amount.Int64(), "registered": false, "pairon": false, "tok": 0, "ext": false, "out": 0, "committed": false}
+		if pd := w.Pend[abs]; pd != nil {
+			e["out"] = pd.amount
+			e["committed"] = len(a.IBCKeeper.ChannelKeeper.GetPacketCommitment(ctx, pd.packet.SourcePort, pd.packet.SourceChannel, pd.packet.Sequence)) > 0
+		}
 		if c, ok := w.erc20Of(d); ok {
 			id := a.AggregateKeeper.GetDenomMap(ctx, d)
 			p, _ := a.AggregateKeeper.GetTokenPair(ctx, id)
@@ -281,6 +295,10 @@ func driveICS20(t *testing.T, in, out string, seed int64) {
 				if err != nil || res.Failed() {
 					line["res"] = "err"
 				}
+			case "SendBack":
+				w.sendBack(line, st, denoms)
+			case "Settle":
+				w.settle(line, st, denoms)
 			case "Param":
 				content := paramproposal.NewParameterChangeProposal("t", "d", []paramproposal.ParamChange{
 					paramproposal.NewParamChange(aggtypes.ModuleName, string(aggtypes.ParamStoreKeyEnableAggregate), fmt.Sprint(st["on"].(bool)))})
@@ -296,6 +314,145 @@ func driveICS20(t *testing.T, in, out string, seed int64) {
 			tw.Emit(line)
 		}
 	}
+}
+
+// deliverB delivers one transaction of the user on chain B through the application's own message path (ante handler,
+// router, IBC core, the aggregate middleware, the transfer application) and commits the block, like the test bed's
+// SendMsgs, but returns a failing delivery as an error instead of failing the test.
+func (w *ICSWorld) deliverB(msgs ...sdk.Msg) (*sdk.Result, error) {
+	chain := w.B
+	chain.Coordinator.UpdateTimeForChain(chain)
+	acc := w.appB().AccountKeeper.GetAccount(chain.GetContext(), w.userB())
+	tx, err := helpers.GenTx(chain.TxConfig, msgs, sdk.Coins{sdk.NewInt64Coin(sdk.DefaultBondDenom, 0)}, helpers.DefaultGenTxGas, chain.ChainID,
+		[]uint64{acc.GetAccountNumber()}, []uint64{acc.GetSequence()}, chain.SenderPrivKey)
+	must(err)
+	header := chain.GetContext().BlockHeader()
+	chain.App.GetBaseApp().BeginBlock(abci.RequestBeginBlock{Header: header})
+	_, res, derr := chain.App.GetBaseApp().Deliver(chain.TxConfig.TxEncoder(), tx)
+	chain.App.GetBaseApp().EndBlock(abci.RequestEndBlock{})
+	chain.App.GetBaseApp().Commit()
+	chain.NextBlock()
+	w.fixHeaders()
+	chain.SenderAccount.SetSequence(w.appB().AccountKeeper.GetAccount(chain.GetContext(), w.userB()).GetSequence())
+	chain.Coordinator.IncrementTime()
+	return res, derr
+}
+
+// pathOf: the channel a voucher came over (B's end is EndpointB on both paths)
+func (w *ICSWorld) pathOf(abs string) *ibctesting.Path {
+	if abs == "vc" {
+		return w.PathC
+	}
+	return w.Path
+}
+
+// sendBack: the holder sends vouchers back to where they came from with a MsgTransfer on chain B.
+func (w *ICSWorld) sendBack(line, st M, denoms map[string]string) {
+	abs := str(st["denom"])
+	line["sig"] = fmt.Sprintf("SendBack/%s/%s", abs, str(st["amt"]))
+	if w.Pend[abs] != nil {
+		line["res"], line["msg"] = "err", "harness: one outstanding packet per voucher"
+		return
+	}
+	path := w.pathOf(abs)
+	coin := sdk.Coin{Denom: denoms[abs], Amount: sdk.NewInt(0)}
+	switch str(st["amt"]) {
+	case "1":
+		coin.Amount = sdk.NewInt(1)
+	case "2":
+		coin.Amount = sdk.NewInt(2)
+	case "neg":
+		coin.Amount = sdk.NewInt(-3)
+	case "garbage":
+		coin = sdk.Coin{Denom: "1x", Amount: sdk.NewInt(1)}
+	}
+	cp := path.EndpointA.Chain
+	timeout := clienttypes.NewHeight(clienttypes.ParseChainID(cp.ChainID), uint64(cp.GetContext().BlockHeight())+3)
+	msg := transfertypes.NewMsgTransfer(path.EndpointB.ChannelConfig.PortID, path.EndpointB.ChannelID, coin, w.userB().String(),
+		cp.SenderAccount.GetAddress().String(), timeout, 0)
+	res, err := w.deliverB(msg)
+	if err != nil {
+		line["res"], line["msg"] = "err", clip(err.Error())
+		return
+	}
+	packet, perr := ibctesting.ParsePacketFromEvents(res.GetEvents())
+	if perr != nil {
+		line["res"], line["msg"] = "ok", "no packet in the events: "+clip(perr.Error())
+		return
+	}
+	line["res"] = "ok"
+	w.Pend[abs] = &icsPending{packet: packet, amount: coin.Amount.Int64()}
+}
+
+// settle: the outstanding packet of a voucher is settled by an acknowledgement the counterparty wrote (success or
+// error) or by a timeout, delivered to chain B as MsgAcknowledgement / MsgTimeout with a real proof; then the same
+// message is delivered again (line["again"]: did the second delivery move anything?).  Without an outstanding packet an
+// acknowledgement for a packet that was never sent is delivered instead, and must move nothing.
+func (w *ICSWorld) settle(line, st M, denoms map[string]string) {
+	abs, outcome := str(st["denom"]), str(st["outcome"])
+	line["sig"] = fmt.Sprintf("Settle/%s", outcome)
+	line["again"] = false
+	path := w.pathOf(abs)
+	pd := w.Pend[abs]
+	var packet channeltypes.Packet
+	if pd != nil {
+		packet = pd.packet
+	} else {
+		seq, _ := w.appB().IBCKeeper.ChannelKeeper.GetNextSequenceSend(w.B.GetContext(), path.EndpointB.ChannelConfig.PortID, path.EndpointB.ChannelID)
+		base := map[string]string{"va": "acoin", "vb": "bcoin", "vc": "acoin"}[abs]
+		data := transfertypes.FungibleTokenPacketData{Denom: transfertypes.GetPrefixedDenom(path.EndpointB.ChannelConfig.PortID, path.EndpointB.ChannelID, base), Amount: "1",
+			Sender: w.userB().String(), Receiver: path.EndpointA.Chain.SenderAccount.GetAddress().String()}
+		packet = channeltypes.NewPacket(data.GetBytes(), seq, path.EndpointB.ChannelConfig.PortID, path.EndpointB.ChannelID,
+			path.EndpointA.ChannelConfig.PortID, path.EndpointA.ChannelID, clienttypes.NewHeight(clienttypes.ParseChainID(path.EndpointA.Chain.ChainID), 100000), 0)
+		if outcome == "timeout" {
+			outcome = "error"
+		}
+	}
+	var msg sdk.Msg
+	if outcome == "timeout" {
+		cp := path.EndpointA.Chain
+		for uint64(cp.GetContext().BlockHeight()) <= packet.TimeoutHeight.RevisionHeight {
+			w.Coord.CommitBlock(cp)
+		}
+		w.fixHeaders()
+		must(path.EndpointB.UpdateClient())
+		w.fixHeaders()
+		proof, proofHeight := path.EndpointA.QueryProof(host.PacketReceiptKey(packet.GetDestPort(), packet.GetDestChannel(), packet.GetSequence()))
+		msg = channeltypes.NewMsgTimeout(packet, 1, proof, proofHeight, w.userB().String())
+	} else {
+		var ack channeltypes.Acknowledgement
+		if outcome == "success" {
+			ack = channeltypes.NewResultAcknowledgement([]byte{byte(1)})
+		} else {
+			ack = channeltypes.NewErrorAcknowledgement("forced by the counterparty")
+		}
+		if err := path.EndpointA.WriteAcknowledgement(ack, packet); err != nil { // the counterparty's store now holds this acknowledgement; B's client is updated
+			line["cpmsg"] = clip(err.Error()) // (an earlier, refused settlement already wrote one: the proof below is then of that one)
+			must(path.EndpointB.UpdateClient())
+		}
+		w.fixHeaders()
+		proof, proofHeight := path.EndpointA.QueryProof(host.PacketAcknowledgementKey(packet.GetDestPort(), packet.GetDestChannel(), packet.GetSequence()))
+		msg = channeltypes.NewMsgAcknowledgement(packet, ack.Acknowledgement(), proof, proofHeight, w.userB().String())
+	}
+	_, err := w.deliverB(msg)
+	if pd == nil {
+		line["res"], line["msg"] = "err", "harness: nothing outstanding; an acknowledgement of a packet never sent was delivered"
+		if err != nil {
+			line["msg"] = clip(err.Error())
+		}
+		return
+	}
+	if err != nil {
+		line["res"], line["msg"] = "err", clip(err.Error())
+		return
+	}
+	line["res"] = "ok"
+	delete(w.Pend, abs)
+	// the same message once more
+	before := w.project(denoms)
+	_, _ = w.deliverB(msg)
+	after := w.project(denoms)
+	line["again"] = fmt.Sprint(before) != fmt.Sprint(after)
 }
 
 // execProposalOn runs a proposal content on chain B the way gov.EndBlocker does.
